@@ -158,6 +158,8 @@ def check_truncation(rec, fam, F, a, c, b, corner=None, call=None, form=None):
         info["call_form"] = form
     exact = enumerate_vertices(planes, dists)
     sep = min_separation(exact) if len(exact) > 1 else 0.0
+    import random as _random
+    rs0, ps0 = np.random.get_state(), _random.getstate()
     try:
         shape = F.get_shape(a, c) if call is None else call()
     except ValueError as e:
@@ -173,6 +175,31 @@ def check_truncation(rec, fam, F, a, c, b, corner=None, call=None, form=None):
     with contracts.quiet():
         V = np.asarray(shape.vertices, float)
         vol = float(shape.volume)
+    rs1, ps1 = np.random.get_state(), _random.getstate()
+    drew = not (rs0[0] == rs1[0] and np.array_equal(rs0[1], rs1[1]) and rs0[2:] == rs1[2:]) or ps0 != ps1
+    rec.note("get_shape drew from a global random generator" if drew else "get_shape left the global random generators untouched")
+    if drew and sep > 1e-4:
+        # the solid is a function of (a, c) alone.  A call that consumed global random numbers is repeated under other states of
+        # those generators (this costs nothing while the library does not draw): every repeat must give the same solid
+        rec.cls("repeated-under-other-global-RNG-states")
+        bad = None
+        for k_ in range(150):
+            np.random.seed(7919 * k_ + 13)
+            _random.seed(7919 * k_ + 13)
+            try:
+                with contracts.quiet():
+                    sk = F.get_shape(a, c) if call is None else call()
+                    nk, vk = len(sk.vertices), float(sk.volume)
+            except Exception as e:
+                bad = (k_, repr(e)[:200])
+                break
+            if nk != len(V) or abs(vk - vol) > 1e-9 * abs(vol):
+                bad = (k_, {"vertices": nk, "volume": vk})
+                break
+        np.random.set_state(rs1)
+        _random.setstate(ps1)
+        rec.check("truncation:volume", bad is None, f"{fam}.get_shape/result-depends-on-the-global-random-state",
+                  lambda: dict(info, first={"vertices": len(V), "volume": vol}, differing_repeat=bad))
     rec.check("truncation:inside-halfspaces", bool(np.all(V @ planes.T <= dists[None, :] + 1e-9)), f"{fam}.get_shape/vertex-outside-a-stated-halfspace",
               lambda: dict(info, vertices=V))
     h = geom.hull_facets(V, band=1e-7)
